@@ -282,7 +282,17 @@ func Rewrite(file []byte, leaves []Leaf, rng *rand.Rand, o RewriteOpts) ([]byte,
 				s = e
 			}
 			nmd.TotalCompressedSize = int64(len(out) - chunkStart)
-			nrg.Columns = append(nrg.Columns, &sch.ColumnChunk{FileOffset: int64(chunkStart), MetaData: nmd})
+			// file_offset is a legal choice of the writer too: the first page (this library), 0
+			// (current parquet-format: deprecated, writers should store 0) or the position after
+			// the chunk (older writers put the column metadata there)
+			fo := int64(chunkStart)
+			switch rng.Intn(3) {
+			case 1:
+				fo = 0
+			case 2:
+				fo = int64(len(out))
+			}
+			nrg.Columns = append(nrg.Columns, &sch.ColumnChunk{FileOffset: fo, MetaData: nmd})
 			nrg.TotalByteSize += nmd.TotalCompressedSize
 		}
 		nf.RowGroups = append(nf.RowGroups, nrg)
